@@ -106,7 +106,7 @@ func c05Cases(tier string, seed uint64, flavor string) []lib.Case {
 	builds := []string{"small", "nested"}
 	nb := 1
 	if tier == "thorough" {
-		nb = 6
+		nb = 30
 	}
 	for bi := 0; bi < nb; bi++ {
 		for _, name := range builds {
@@ -121,7 +121,7 @@ func c05Cases(tier string, seed uint64, flavor string) []lib.Case {
 			r := lib.NewRng(lib.Mix(bs, 55))
 			ncombo := 30
 			if tier == "thorough" {
-				ncombo = 300
+				ncombo = 500
 			}
 			for i := 0; i < ncombo; i++ {
 				k := r.Range(2, 5)
